@@ -123,6 +123,175 @@ def e(s):
     return 'e:' + hx(s)
 
 
+# ---- the outside world of the expansion: long environment values, HOME, stored values, directories, command output ----
+CB = CONFIG_BUFF
+# the sizes of the fixed buffers of conf.c (128-byte name buffer, 256-byte buffers, PATH_MAX, CONFIG_BUFF) and their neighbours
+LENS_QUICK = [0, 1, 127, 128, 129, 255, 256, 257, 4095, 4096, 4097, CB - 3, CB - 2, CB - 1, CB, CB + 1]
+LENS_MORE = [2, 3, 7, 8, 9, 15, 16, 17, 31, 32, 33, 63, 64, 65, 300, 511, 512, 513, 1023, 1024, 1025, 2047, 2048, 2049, 8191, 8192, 8193,
+             10239, 10240, 10241, 16383, 16384, 16385, CB - 20, CB + 2, 2 * CB + 3, 65535, 65536, 65537]
+INSIDE_MAX_QUICK = 4097      # the extracted C12 word model is more than quadratic in the length of a call argument:
+INSIDE_MAX_THOROUGH = 8193   # 0.4 s at 4 kB, 37 s at 20 kB - longer values inside calls are left to C11's sanitizer sweep
+
+
+def vs(n, pat=None):
+    return '*%d' % n + ('/' + hx(pat) if pat else '')
+
+
+def et(*parts):
+    """expansion of the concatenation of the parts (literals, or ready value specs starting with '*')"""
+    out = []
+    for q in parts:
+        if isinstance(q, str) and q.startswith('*'):
+            out.append(q)
+        elif q not in ('', b''):
+            out.append(hx(q))
+    return 'e:' + ('+'.join(out) or '-')
+
+
+def wcase(world, ops, pn='Eterm', pv='0.9.6'):
+    return 'x %s %s %s %s' % (hx(pn), hx(pv), ','.join(world) or '-', ' '.join(ops))
+
+
+def w_sources(n, pat=None):
+    """how a text of n bytes gets into an expansion: (world entries, the text that names it, operations that must run first)"""
+    return [
+        (['%s=%s' % (hx('X'), vs(n, pat))], '$X', []),
+        (['%s=%s' % (hx('X'), vs(n, pat))], '${X}', []),
+        (['%s=%s' % (hx('X_1'), vs(n, pat))], '$(X_1)', []),
+        (['%s=%s' % (hx('HOME'), vs(n, pat or b'/h'))], '~', []),
+        (['%s=%s' % (hx('X'), vs(n, pat))], '%get(k)', ['p:%s:%s' % (hx('k'), vs(n, pat))] if n else []),   # a stored value
+    ]
+
+
+W_OUTSIDE = ['{S}', 'a{S}b', '{S}{S}', '{S} {S} {S}', '"{S}"', "'{S}'", '\\{S}', '{S}%', '{S}\\', '{S}$', '{S}${', "{S}'", '{S}%get(']
+W_INSIDE = ['%put(j {S})', '%put({S} v)', '%get(nosuch {S})', '%get({S})', '%get({S} {S})', '%appname({S})', '%version({S})', '%version ){S})',
+            '%get(a %get(b {S}))', '%get(a %get(b %get(c {S})))', '%put(j %get(nosuch {S}))', '%get(nosuch %appname({S}){S})',
+            '%put(j "{S}")%get(j)%get(j)', "%put(j '{S}')[%get(j)]", '%get(j %get(j %get(j %get(j %get(j {S})))))',
+            '%dirscan({S})', '%dirscan(d{S})']
+W_INSIDE_FEW = ['%put(j {S})', '%get(nosuch {S})', '%get(a %get(b {S}))', "%put(j '{S}')[%get(j)]"]
+
+# The extracted model pays for its checked, single-pass cell accesses: an expansion costs about (length of the input text)^2,
+# a call argument (C12 word model) more than (length)^2 - 0.4 s at 4 kB, 37 s at 20 kB -, %dirscan (names) x (length of the list),
+# condense_whitespace (length of the output)^2 - 21 s at 20 kB.  Long values OUTSIDE calls cost nothing.  The generator therefore
+# enumerates every use for the small size classes and a few uses for the large ones; the full product at every size runs on the
+# implementation alone under the sanitizers in property C11 (checks/conflib.py gen_world).
+
+
+def gen_world_values(rng, lens, inside_all_max, inside_few_max, pats=(None,)):
+    cases = []
+    for n in lens:
+        for pat in pats:
+            for (world, name, pre) in w_sources(n, pat):
+                inside = W_INSIDE if n <= inside_all_max else (W_INSIDE_FEW if n <= inside_few_max else [])
+                if n > inside_all_max and name not in ('$X', '%get(k)'):
+                    inside = inside[:1]
+                uses = W_OUTSIDE + inside
+                for u in uses:
+                    cases.append(wcase(world, pre + [e(u.replace('{S}', name)), 'g:' + hx('j')]))
+                if n <= inside_all_max:
+                    pick = list(uses)
+                    rng.shuffle(pick)
+                    cases.append(wcase(world, pre + [e(u.replace('{S}', name)) for u in pick[:12]]))
+    return cases
+
+
+def gen_world_limit(rng, picks):
+    """an almost full line when the long text arrives: filler of CB-1-m characters, then the source (12 s each in the model)"""
+    cases = []
+    for (n, si, m) in picks:
+        (world, name, pre) = w_sources(n)[si]
+        room = CB - 1 - len(name) - m
+        cases.append(wcase(world, pre + [et(vs(room, b'x'), name)]))
+    return cases
+
+
+def dir_listings(tier):
+    """directory listings whose names and blanks add up to less than, exactly and more than CONFIG_BUFF"""
+    ls = ['-', hx('x'), '#1x255', '%s;!%s;?%s;%s' % (hx('x'), hx('sub'), hx('gone'), hx('yy')), '!' + hx('sub'), '#200x100', '#202x100', '#203x100',
+          '#210x100', '#159x127', '#160x127', '#161x127', '#159x127;#1x126', '#159x127;#1x125', '#159x127;#1x128', '#1x126;#159x127',
+          '#159x127;#1x127;#5x3', '#79x255', '#80x255', '#81x255', '#128x159', '#320x63', '#36x1',
+          '%s;%s' % (hx('a b'), hx("q'r")), '#1x254;#3x5', '#80x254;#1x79', '#80x254;#1x78', '#80x254;#1x80']     # a name has at most 255 characters (struct dirent)
+    if tier != 'quick':
+        ls += ['#1024x19', '#1023x19;#1x18', '#1023x19;#1x20', '#2048x9', '#2100x9']
+        for L in range(31, 256):
+            c = CB // (L + 1)
+            exact = CB % (L + 1) == 0
+            if not exact and L % 8:
+                continue
+            ls += ['#%dx%d' % (c, L), '#%dx%d' % (c + 1, L)]
+            r = CB - c * (L + 1)
+            for d in ((-1, 0, 1) if exact or L % 16 == 0 else (0,)):
+                ll = r - 1 + d
+                if ll >= 1:
+                    ls.append('#%dx%d;#1x%d' % (c, L, ll))
+                    ls.append('#1x%d;#%dx%d' % (ll, c, L))
+                elif c > 1:
+                    ls.append('#%dx%d;#1x%d' % (c - 1, L, ll + L + 1))
+    seen, out = set(), []
+    for x in ls:
+        if x not in seen:
+            seen.add(x)
+            out.append(x)
+    return out
+
+
+DIR_USES = ['%dirscan(d)', '[%dirscan(d)]', '%dirscan(d)%dirscan(d)', '%dirscan(d d)', '%dirscan()', '%dirscan(nosuch)', '%dirscan( d )',
+            '%dirscan("d")', "%put(k '%dirscan(d)')%get(k)", '%put(k %dirscan(d))', '%get(nosuch %dirscan(d))', '%get(%dirscan(d))',
+            '%dirscan(%dirscan(d))', '%dirscan(d/sub)', '%dirscan(.)', '%DIRSCAN(d)', '%dirscan )d)', "%dirscan('d' )", '%dirscan(d', '%dirscan(\\d)']
+
+
+def gen_world_dirs(rng, tier):
+    cases = []
+    small = [hx('x'), '%s;!%s;?%s;%s' % (hx('x'), hx('sub'), hx('gone'), hx('yy')), '#36x1', '%s;%s' % (hx('a b'), hx("q'r")), '-']
+    for ls in dir_listings(tier):
+        world = ['@d%s=%s' % (hx('d'), ls), '@d%s=%s' % (hx('d/sub'), hx('inner'))]
+        cases.append(wcase(world, [e('%dirscan(d)')]))
+        if ls in small:
+            cases.append(wcase(world, [e(u) for u in DIR_USES]))          # a long list inside a call argument is slow in the model
+        elif ls in ('#160x127', '#203x100'):
+            cases.append(wcase(world, [e(u) for u in DIR_USES[:8]]))
+    return cases
+
+
+OUT_PATS = [b'o', b'ab  c\n', b' ', b'\n', b'a\x00b', b'%exec(x)$X~\\', b'x' * 100 + b'\n', b'\t \r\x0b\x0c', b' lead', b'\xff\x01']
+EXEC_USES = ['%exec(echo)', 'a%exec(echo)b', '%exec(echo)%exec(echo)', '%put(k "%exec(echo)")%get(k)', '%get(nosuch %exec(echo))',
+             '%exec(%exec(echo))', '%exec()', '%exec( )', '%exec(echo', "'%exec(echo)'", '%EXEC(echo)', '%exec )echo)', '%exec($X)', '%exec(~)']
+
+
+def gen_world_exec(rng, lens, tier, tmpd):
+    quick = tier == 'quick'
+    cases = []
+    base = ['%s=%s' % (hx('TMPDIR'), hx(tmpd)), '%s=%s' % (hx('X'), hx('va'))]
+    for n in lens:
+        if n <= 257:
+            for pat in (OUT_PATS[:6] if quick else OUT_PATS):
+                cases.append(wcase(base + ['@o=' + vs(n, pat)], [e(u) for u in EXEC_USES]))
+        elif n <= 4097:
+            for pat in (OUT_PATS[:2] if quick else OUT_PATS[:6]):
+                cases.append(wcase(base + ['@o=' + vs(n, pat)], [e('[%exec(echo)]')] if quick and n != 4096 else [e('[%exec(echo)]'), e('%get(nosuch %exec(echo))')]))
+        elif not quick and n <= 8193:
+            cases.append(wcase(base + ['@o=' + vs(n, b'ab  c\n')], [e('[%exec(echo)]')]))
+    if not quick:
+        cases.append(wcase(base + ['@o=' + vs(CB + 1, b'ab ')], [e('%exec(echo)')]))        # 21 s in the model
+    cases.append(wcase(base + ['@o=-'], [e(u) for u in EXEC_USES]))
+    # the command length at which builtin_exec gives up: strlen(param) + strlen(OutFile) + 8 > CONFIG_BUFF; the command comes from
+    # the environment so that the input text stays short
+    outfile = len(tmpd) + 18
+    edge = CB - 8 - outfile
+    span = range(edge - 3, edge + 4) if quick else range(edge - 40, edge + 41)
+    for plen in list(span) + [CB - 9, CB - 8, CB - 2]:
+        if plen > 0:
+            cases.append(wcase(['%s=%s' % (hx('TMPDIR'), hx(tmpd)), '%s=%s' % (hx('X'), vs(plen, b'c')), '@o=' + hx('out')], [e('[%exec($X)]')]))
+    if not quick:
+        cases.append(wcase(base + ['@o=' + hx('out')], [et('%exec(', vs(edge + 1, b'c'), ')')]))     # the same from the text itself (26 s)
+    # a temporary directory whose name does not fit spiftool_temp_file's 256-byte buffer: the name is cut, mkstemp refuses it
+    for tl in (236, 237, 238, 239, 255, 256, 300):
+        pad = tmpd + '/.' * ((tl - len(tmpd)) // 2) + ('/' if (tl - len(tmpd)) % 2 else '')
+        if len(pad) == tl:
+            cases.append(wcase(['%s=%s' % (hx('TMPDIR'), hx(pad)), '@o=' + hx('out')], [e('[%exec(echo)]')]))
+    return cases
+
+
 class C10(vlib.PropertyCheck):
     id = 'C10'
     family = 'c10'
@@ -135,14 +304,24 @@ class C10(vlib.PropertyCheck):
                        'strings are token sequences over ordinary characters, both quotes, backslash sequences, ~, the three $ forms '
                        '(set, unset, empty, over-long names), %get/%put/%version/%appname with nesting, malformed and unterminated '
                        'constructs at the end of the text; a stratum enumerates every 1-3 token string over a reduced token set; a '
-                       'stratum places each ending within the last 300 bytes of the 20 kB limit; non-trivial = the model result is '
+                       'stratum places each ending within the last 300 bytes of the 20 kB limit; a stratum takes environment values, HOME and stored '
+                       'values of 0, 1, 127-129, 255-257, 4095-4097 and CONFIG_BUFF-3..CONFIG_BUFF+1 bytes (thorough: every power of two and its neighbours, '
+                       '65535-65537) through every use outside calls and - up to 4 kB, the model being quadratic - inside the arguments of the built-ins and of '
+                       'nested calls; a stratum expands %dirscan on interposed directory listings whose names and blanks add up to less than, exactly and more '
+                       'than CONFIG_BUFF (0 to 2100 names of 1-255 characters, non-regular entries); a stratum expands %exec with the interposed command '
+                       'printing 0 to 4097 (thorough: CONFIG_BUFF+1) bytes over ten byte patterns, commands around the length at which %exec refuses, '
+                       'temporary-directory names around the 256-byte name buffer; nesting depth up to 100 (thorough: 1000); non-trivial = the model result is '
                        'not a fault and the history contains at least one construct other than ordinary characters; distinct = '
                        'distinct case lines')
     assumptions = ['the input sits in an object of CONFIG_BUFF bytes (what spifconf_parse_line and the recursive call provide) and is shorter than CONFIG_BUFF',
                    'getenv is an oracle: the harness builds the environment with clearenv/setenv from the case line; model side: first NAME=value entry with that prefix, as glibc',
                    'environment values, program name and version contain no NUL byte and are shorter than 4 GB (strlen - 1 is kept in 32 bits)',
                    'only the seven built-ins registered by spifconf_init_subsystem are present (table generated from the source)',
-                   '%exec, %dirscan, %random and backquotes are outside this property (model stops with an event; C11 covers spawning)',
+                   '%random and backquotes are outside this property (the model stops with an event; C11 covers spawning and runs them under the sanitizers)',
+                   'the outside world is a parameter like getenv: what a command run by %exec writes into its temporary file (a list of bytes shorter than 4 GB, '
+                   'or "refused": no temporary file / command line too long) and the names of the regular files of a directory in readdir order (NUL-free; at most '
+                   '255 characters in the harness, any length in the theorems); the harness supplies both by interposing system() and opendir/readdir/closedir/stat; '
+                   'the temporary-file handling and the assembly of the shell command inside builtin_exec are not modelled',
                    'spiftool_get_word / spiftool_num_words behave as their C12 model (Split/SplitModel.v)',
                    'nesting depth of %calls small enough for the C stack (the C stack is not modelled)',
                    '"C" locale character classes']
@@ -155,7 +334,7 @@ class C10(vlib.PropertyCheck):
         # scratch directory for the temporary files builtin_exec creates before it reaches the trapped system()
         tmpd = os.path.join(vlib.BUILD, 'work', 'c10', 'tmp')
         os.makedirs(tmpd, exist_ok=True)
-        return vlib.build_impl(self.id.lower(), os.path.join(vlib.VERIF, 'harness', self.harness), **self.impl_kwargs)
+        return vlib.build_impl(getattr(self, 'runkey', self.id.lower()), os.path.join(vlib.VERIF, 'harness', self.harness), **self.impl_kwargs)
 
     def extra_steps(self, ctx):
         tmpd = os.path.join(vlib.BUILD, 'work', 'c10', 'tmp')
@@ -253,6 +432,25 @@ class C10(vlib.PropertyCheck):
         envx = dict(env0, TMPDIR=tmpd)
         for t in ['a`ls`b', 'a`ls', '`', "'`ls`'", 'a%exec(ls)b', '%exec(', "'`", '"`x', '`%put(k v)`']:
             cases.append(case(envx, [e(t), 'g:' + hx('k')]))
+        # 8. the outside world: values of every buffer-size class outside and inside (nested) calls, directory listings,
+        #    command output (followed by the model: exec_out / dir_list are parameters of the theorems)
+        small = [0, 1, 127, 128, 129, 255, 256, 257]
+        if quick:
+            lens = LENS_QUICK
+            cases += gen_world_values(rng, lens, 257, 4096)
+        else:
+            lens = sorted(set(LENS_QUICK + LENS_MORE))
+            cases += gen_world_values(rng, [n for n in lens if n <= 257], 257, 257, pats=(None, b'a b', b"q'\"\\ "))
+            cases += gen_world_values(rng, [n for n in lens if 257 < n <= 1025], 1025, 1025)
+            cases += gen_world_values(rng, [n for n in lens if n > 1025], 0, 4097)
+            cases.append(wcase(['%s=%s' % (hx('X'), vs(8192))], [e('%put(j $X)'), e('%get(a %get(j))')]))
+            # the stratum-5 cases carry j to the limit with one long VALUE; here the input text itself is almost full (12 s each)
+            cases += gen_world_limit(rng, [(4096, 0, 3), (CB - 2, 4, 0)])
+        cases += gen_world_dirs(rng, tier)
+        cases += gen_world_exec(rng, lens, tier, tmpd)
+        # 9. nesting depth: 1000 nested calls (the scratch buffers are heap blocks since the repair; 160 s in the model)
+        for depth in ([12, 100] if quick else [12, 100, 399, 400, 401, 1000]):
+            cases.append(case(env0, [e('%get(' * depth + 'k' + ')' * depth)]))
         return cases
 
     def search_gen(self, tier, rng):
@@ -269,7 +467,7 @@ class C10(vlib.PropertyCheck):
             return False
         for op in case.split(' ')[4:]:
             if op.startswith('e:') and op != 'e:-':
-                raw = bytes.fromhex(op[2:])
+                raw = b''.join(bytes.fromhex(q) for q in op[2:].split('+') if q and q != '-' and not q.startswith('*'))
                 if any(c in raw for c in b'~\\$%\'"'):
                     return True
             elif op[0] in 'pd':
@@ -291,7 +489,16 @@ C10.MANIFEST['text'] = (
     'corollaries (all put/delete histories; sorted, one entry per name, get returns the last put unless deleted); '
     'C10_copy_is_safe_strncpy (the bounded copy is the C13 model). The proof goes through a list-level loop (ExpandList.v) that the '
     'buffer model refines for all inputs. spiftool_get_word/num_words are taken from the C12 model with its exactness theorems. '
-    'Not followed by the model (it stops with an event): %exec, %dirscan, %random and backquotes; heap leaks are not modelled (the '
+    'The outside world of %exec and %dirscan is a pair of parameters (exec_out: command text -> not followed | refused | bytes written to the '
+    'temporary file; dir_list: directory name -> not followed | cannot be opened | names of the regular files in readdir order) over which every theorem '
+    'above quantifies, like getenv; what the code does with the answers is modelled and covered by the same theorems: builtin_exec takes the bytes up to '
+    'the first NUL through the C13 model of spiftool_condense_whitespace, builtin_dirscan runs its accumulation loop over a CONFIG_BUFF block. '
+    'C10_dirscan_in_bounds: for EVERY listing (any number of names of any length) that loop - strcat of the name and of a blank while name, blank and '
+    'terminator fit the room left (the repaired test; the unrepaired `len < n` wrote one byte past the block when names and blanks add up to exactly '
+    'CONFIG_BUFF) - never faults and leaves a NUL-terminated, NUL-free text shorter than CONFIG_BUFF; C10_dirscan_lists_names: that text is the names of a '
+    'subsequence of the listing, each followed by a blank, and the whole listing when it fits. The temporary-file handling and the assembly of the shell '
+    'command inside builtin_exec are not modelled (answer "refused"). '
+    'Not followed by the model (it stops with an event): %random and backquotes; heap leaks are not modelled (the '
     'harness counts blocks left allocated and compares with 3 per new store entry as a level-B observable). The C stack is not '
     'modelled: with newbuff a local array each nesting level kept a CONFIG_BUFF frame and about 400 nested calls overflowed an 8 MB '
     'stack (reported; repaired by the fix that moves newbuff to a MALLOC(CONFIG_BUFF) block per call, which the model - a fresh '
@@ -299,6 +506,59 @@ C10.MANIFEST['text'] = (
     '#included by the harness so the static store can be reset and put/delete/get called directly) on the same generated histories; '
     'each history runs three times: stack, malloc blocks and input slack painted 0xA5, then 0x5A (transcripts must be identical), then '
     'with every non-growing input in an exactly sized heap block so ASan traps a one-byte over-read; system/popen/fork/execve are '
-    'wrapped and a call is reported as an event.')
+    'wrapped: with a world entry @o the intercepted system() writes the given bytes to the command\'s output file, without it a call is reported as an '
+    'event; opendir, readdir, closedir and stat of conf.c are redirected to the listings of the case line.')
+
+# The extracted model is a single-threaded list program whose cost grows with the square of the text length (20 s for one
+# expansion near the 20 kB limit).  Case files are run on stripes in parallel; every case is independent, so the results are
+# those of one sequential run.  Only this check's process is affected (same arrangement as checks/c01.py).
+_seq_run_model = vlib.run_model
+
+
+def _par_run_model(exe, cases_path, ncases, timeout=600):
+    import subprocess
+    jobs = min(max(1, (os.cpu_count() or 2) - 2), 12)
+    if ncases < 400 or jobs < 2 or not os.path.basename(exe).startswith('c10_'):
+        return _seq_run_model(exe, cases_path, ncases, timeout=timeout)
+    with open(cases_path) as f:
+        lines = f.readlines()
+    procs = []
+    for j in range(jobs):
+        part = lines[j::jobs]       # striped: the expensive cases sit next to each other in the file
+        if not part:
+            break
+        pp = '%s.part%d' % (cases_path, j)
+        with open(pp, 'w') as f:
+            f.writelines(part)
+        of = open(pp + '.out', 'wb')
+        procs.append((j, pp, subprocess.Popen([exe, pp], stdout=of, stderr=subprocess.PIPE,
+                                               env=dict(os.environ, OCAMLRUNPARAM='l=512M'))))
+        of.close()
+    results = [None] * ncases
+    rc_all, err_all = 0, ''
+    for off, pp, pr in procs:
+        try:
+            _, er = pr.communicate(timeout=timeout)
+        except subprocess.TimeoutExpired:
+            pr.kill()
+            _, er = pr.communicate()
+            rc_all, err_all = -9, err_all + '[timeout]'
+        rc_all = rc_all or pr.returncode
+        err_all += er.decode(errors='replace')[-500:]
+        with open(pp + '.out', 'rb') as f:
+            o = f.read()
+        os.unlink(pp + '.out')
+        lines_out = o.decode(errors='replace').split('\n')
+        for n, line in enumerate(lines_out):
+            if line.startswith('#') and n + 1 < len(lines_out):      # a last line without its newline is a killed worker's fragment
+                sp = line.find(' ')
+                k = off + int(line[1:sp]) * jobs
+                if k < ncases:
+                    results[k] = line[sp + 1:]
+        os.unlink(pp)
+    return results, (rc_all, err_all)
+
+
+vlib.run_model = _par_run_model
 
 CHECK = C10()
